@@ -1,8 +1,1379 @@
-//! C06 — not implemented yet (stub).
-use crate::engine::Opts;
-pub fn main(_opts: &Opts) -> i32 {
-    eprintln!("C06: check not implemented");
-    2
+//! C06 — canonicalisation output equals what W3C RDFC-1.0 specifies.
+//!
+//! Oracle: `rdfc_ref`, an independent implementation of RDFC-1.0 written from the numbered
+//! steps of the Recommendation (sections 4.4, 4.6, 4.7, 4.8 and the canonical N-Quads form),
+//! working on model quads only, without any pruning, and recording what it explored (largest
+//! permutation group, deepest recursion) so that `ToxicGraph` answers can be judged.
+use crate::engine::*;
+use crate::gen::*;
+use crate::model::*;
+use crate::stores::*;
+use proptest::prelude::*;
+use serde::{Deserialize, Serialize};
+use sophia_api::dataset::{CollectibleDataset, SetDataset};
+use sophia_c14n::rdfc10;
+use sophia_c14n::C14nError;
+use std::collections::{BTreeMap, BTreeSet};
+
+// =====================================================================================
+// Independent reference implementation of RDFC-1.0
+// =====================================================================================
+pub mod rdfc_ref {
+    use crate::model::*;
+    use sha2::Digest;
+    use std::collections::BTreeMap;
+
+    #[derive(Clone, Copy, Debug, PartialEq, Eq)]
+    pub enum Alg {
+        Sha256,
+        Sha384,
+    }
+
+    /// lower-case hexadecimal digest of `data`
+    pub fn hash_hex(alg: Alg, data: &[u8]) -> String {
+        let bytes: Vec<u8> = match alg {
+            Alg::Sha256 => sha2::Sha256::digest(data).to_vec(),
+            Alg::Sha384 => sha2::Sha384::digest(data).to_vec(),
+        };
+        let mut s = String::with_capacity(bytes.len() * 2);
+        for b in bytes {
+            s.push_str(&format!("{b:02x}"));
+        }
+        s
+    }
+
+    /// Canonical N-Quads literal escaping: BS HT LF FF CR `"` `\` by ECHAR; U+0000-U+0007,
+    /// U+000B, U+000E-U+001F and U+007F by `\u` + 4 upper-case hex digits; everything else
+    /// verbatim. (U+FFFE / U+FFFF are outside the generated domain, see assumptions.)
+    pub fn escape_literal(lex: &str, out: &mut String) {
+        for c in lex.chars() {
+            match c as u32 {
+                0x08 => out.push_str("\\b"),
+                0x09 => out.push_str("\\t"),
+                0x0A => out.push_str("\\n"),
+                0x0C => out.push_str("\\f"),
+                0x0D => out.push_str("\\r"),
+                0x22 => out.push_str("\\\""),
+                0x5C => out.push_str("\\\\"),
+                n @ (0x00..=0x07 | 0x0B | 0x0E..=0x1F | 0x7F) => out.push_str(&format!("\\u{n:04X}")),
+                _ => out.push(c),
+            }
+        }
+    }
+
+    /// Canonical N-Quads form of one term; blank node labels go through `bn`.
+    pub fn term_nq(t: &MT, bn: &dyn Fn(&str) -> String) -> String {
+        match t {
+            MT::Iri(i) => format!("<{i}>"),
+            MT::Bnode(b) => format!("_:{}", bn(b)),
+            MT::Lit(lex, dt) => {
+                let mut s = String::from("\"");
+                escape_literal(lex, &mut s);
+                s.push('"');
+                if dt != XSD_STRING {
+                    s.push_str("^^<");
+                    s.push_str(dt);
+                    s.push('>');
+                }
+                s
+            }
+            MT::Lang(lex, tag) => {
+                let mut s = String::from("\"");
+                escape_literal(lex, &mut s);
+                s.push('"');
+                s.push('@');
+                s.push_str(tag);
+                s
+            }
+            MT::Triple(_) | MT::Var(_) => panic!("rdfc_ref: unsupported term reached the serialiser"),
+        }
+    }
+
+    /// One canonical N-Quads line, including the final " .\n".
+    pub fn quad_nq(q: &MQ, bn: &dyn Fn(&str) -> String) -> String {
+        let mut s = String::new();
+        s.push_str(&term_nq(&q.s, bn));
+        s.push(' ');
+        s.push_str(&term_nq(&q.p, bn));
+        s.push(' ');
+        s.push_str(&term_nq(&q.o, bn));
+        s.push(' ');
+        if let Some(g) = &q.g {
+            s.push_str(&term_nq(g, bn));
+            s.push(' ');
+        }
+        s.push_str(".\n");
+        s
+    }
+
+    /// Identifier issuer (section 4.5): prefix, counter, ordered issued-identifiers map.
+    #[derive(Clone, Debug)]
+    pub struct Issuer {
+        prefix: &'static str,
+        pub order: Vec<String>,
+        pub map: BTreeMap<String, String>,
+    }
+    impl Issuer {
+        pub fn new(prefix: &'static str) -> Issuer {
+            Issuer { prefix, order: vec![], map: BTreeMap::new() }
+        }
+        pub fn has(&self, id: &str) -> bool {
+            self.map.contains_key(id)
+        }
+        pub fn get(&self, id: &str) -> Option<&String> {
+            self.map.get(id)
+        }
+        /// 4.5.2 Issue Identifier
+        pub fn issue(&mut self, id: &str) -> String {
+            if let Some(x) = self.map.get(id) {
+                return x.clone();
+            }
+            let issued = format!("{}{}", self.prefix, self.order.len());
+            self.order.push(id.to_string());
+            self.map.insert(id.to_string(), issued.clone());
+            issued
+        }
+    }
+
+    #[derive(Clone, Debug, Default)]
+    pub struct Stats {
+        pub bnodes: usize,
+        /// blank nodes whose first-degree hash is shared with another one
+        pub shared_fd: usize,
+        /// largest "blank node list" met at step 5 of Hash N-Degree Quads
+        pub max_group: usize,
+        /// deepest recursion (top-level calls have depth 0)
+        pub max_depth: usize,
+        pub calls: u64,
+        pub perms: u64,
+        /// two results of one hash path list had the same hash, or two permutations gave the
+        /// same path (the text leaves the order of results / permutations open)
+        pub ties: bool,
+        /// largest number of identifiers issued by one temporary issuer
+        pub max_temp_ids: usize,
+        /// step 5.2.1 skipped a node (it had been reached from an earlier group)
+        pub skipped_521: u64,
+    }
+
+    #[derive(Debug)]
+    pub enum RefErr {
+        Unsupported(String),
+        Budget,
+    }
+
+    #[derive(Clone, Debug)]
+    pub struct Outcome {
+        pub nquads: String,
+        pub idmap: BTreeMap<String, String>,
+        pub stats: Stats,
+        /// first-degree hash of every blank node
+        pub fd: BTreeMap<String, String>,
+    }
+
+    struct State<'a> {
+        alg: Alg,
+        quads: &'a [MQ],
+        /// 4.2 blank node to quads map (each quad at most once per blank node)
+        b2q: BTreeMap<String, Vec<usize>>,
+        canonical: Issuer,
+        stats: Stats,
+        budget: u64,
+        /// which of two permutations with equal paths is kept (left open by the text)
+        tie_last: bool,
+    }
+
+    fn next_permutation(v: &mut [usize]) -> bool {
+        // lexicographic successor
+        if v.len() < 2 {
+            return false;
+        }
+        let mut i = v.len() - 1;
+        while i > 0 && v[i - 1] >= v[i] {
+            i -= 1;
+        }
+        if i == 0 {
+            return false;
+        }
+        let mut j = v.len() - 1;
+        while v[j] <= v[i - 1] {
+            j -= 1;
+        }
+        v.swap(i - 1, j);
+        v[i..].reverse();
+        true
+    }
+
+    impl State<'_> {
+        /// 4.6 Hash First Degree Quads
+        fn hash_first_degree(&self, reference: &str) -> String {
+            let mut nquads: Vec<String> = vec![];
+            for &qi in &self.b2q[reference] {
+                nquads.push(quad_nq(&self.quads[qi], &|b: &str| if b == reference { "a".to_string() } else { "z".to_string() }));
+            }
+            nquads.sort();
+            hash_hex(self.alg, nquads.concat().as_bytes())
+        }
+
+        /// 4.7 Hash Related Blank Node
+        fn hash_related(&self, related: &str, quad: &MQ, issuer: &Issuer, position: &str) -> String {
+            let mut input = String::from(position);
+            if position != "g" {
+                input.push('<');
+                match &quad.p {
+                    MT::Iri(p) => input.push_str(p),
+                    _ => panic!("rdfc_ref: predicate is not an IRI"),
+                }
+                input.push('>');
+            }
+            if let Some(c) = self.canonical.get(related) {
+                input.push_str("_:");
+                input.push_str(c);
+            } else if let Some(t) = issuer.get(related) {
+                input.push_str("_:");
+                input.push_str(t);
+            } else {
+                input.push_str(&self.hash_first_degree(related));
+            }
+            hash_hex(self.alg, input.as_bytes())
+        }
+
+        /// 4.8 Hash N-Degree Quads (no pruning: steps 5.4.4.3 / 5.4.5.5 only ever skip
+        /// permutations that cannot win at 5.4.6, because a string greater than the chosen
+        /// path stays greater whatever is appended to it)
+        fn hash_n_degree(&mut self, identifier: &str, issuer: &Issuer, depth: usize) -> Result<(String, Issuer), RefErr> {
+            self.stats.calls += 1;
+            if self.stats.calls > self.budget {
+                return Err(RefErr::Budget);
+            }
+            self.stats.max_depth = self.stats.max_depth.max(depth);
+            // 1-3
+            let mut hn: BTreeMap<String, Vec<String>> = BTreeMap::new();
+            let qis = self.b2q[identifier].clone();
+            for qi in qis {
+                let quad = &self.quads[qi];
+                let comps: [(Option<&MT>, &str); 3] = [(Some(&quad.s), "s"), (Some(&quad.o), "o"), (quad.g.as_ref(), "g")];
+                for (c, pos) in comps {
+                    if let Some(MT::Bnode(b)) = c {
+                        if b != identifier {
+                            let h = self.hash_related(b, quad, issuer, pos);
+                            hn.entry(h).or_default().push(b.clone());
+                        }
+                    }
+                }
+            }
+            // 4
+            let mut data = String::new();
+            let mut issuer: Issuer = issuer.clone();
+            // 5
+            for (related_hash, list) in hn {
+                data.push_str(&related_hash); // 5.1
+                self.stats.max_group = self.stats.max_group.max(list.len());
+                let mut chosen_path: Option<String> = None; // 5.2
+                let mut chosen_issuer: Option<Issuer> = None; // 5.3
+                let mut perm: Vec<usize> = (0..list.len()).collect();
+                loop {
+                    self.stats.perms += 1;
+                    if self.stats.perms > self.budget.saturating_mul(8) {
+                        return Err(RefErr::Budget);
+                    }
+                    let mut issuer_copy = issuer.clone(); // 5.4.1
+                    let mut path = String::new(); // 5.4.2
+                    let mut recursion_list: Vec<String> = vec![]; // 5.4.3
+                    for &i in &perm {
+                        let related = &list[i];
+                        // 5.4.4
+                        if let Some(c) = self.canonical.get(related) {
+                            path.push_str("_:");
+                            path.push_str(c);
+                        } else {
+                            if !issuer_copy.has(related) {
+                                recursion_list.push(related.clone());
+                            }
+                            path.push_str("_:");
+                            path.push_str(&issuer_copy.issue(related));
+                        }
+                    }
+                    // 5.4.5
+                    for related in &recursion_list {
+                        let (h, iss) = self.hash_n_degree(related, &issuer_copy, depth + 1)?;
+                        path.push_str("_:");
+                        path.push_str(&issuer_copy.issue(related));
+                        path.push('<');
+                        path.push_str(&h);
+                        path.push('>');
+                        issuer_copy = iss;
+                    }
+                    // 5.4.6
+                    let better = match &chosen_path {
+                        None => true,
+                        Some(c) => {
+                            if path == *c {
+                                // two permutations give the same path: which issuer is kept depends on
+                                // the (unspecified) order in which permutations are visited
+                                self.stats.ties = true;
+                            }
+                            path.as_str() < c.as_str() || (self.tie_last && path == *c)
+                        }
+                    };
+                    if better {
+                        chosen_path = Some(path);
+                        chosen_issuer = Some(issuer_copy);
+                    }
+                    if !next_permutation(&mut perm) {
+                        break;
+                    }
+                }
+                data.push_str(&chosen_path.unwrap()); // 5.5
+                issuer = chosen_issuer.unwrap(); // 5.6
+            }
+            self.stats.max_temp_ids = self.stats.max_temp_ids.max(issuer.order.len());
+            Ok((hash_hex(self.alg, data.as_bytes()), issuer))
+        }
+    }
+
+    /// The documents the harness reference produces for copies of the dataset whose blank nodes
+    /// are relabelled and whose quads are reordered (all label permutations up to 5 blank nodes,
+    /// `tries` pseudo-random ones beyond). The numbered steps leave three orders open (entries of
+    /// a hash path list with equal hashes, permutations with equal paths, iteration over maps);
+    /// the reference resolves them by label / quad order / `tie_last`, so relabelled, reshuffled
+    /// copies exercise other resolutions. More than one document here = RDFC-1.0 itself does not assign a single
+    /// canonical form to this dataset.
+    pub fn alt_docs(quads: &[MQ], alg: Alg, budget: u64, tries: usize) -> std::collections::BTreeSet<String> {
+        let labels = all_bnodes(quads);
+        let n = labels.len();
+        let mut out = std::collections::BTreeSet::new();
+        let mut perms: Vec<Vec<usize>> = vec![];
+        if n <= 5 {
+            let mut p: Vec<usize> = (0..n).collect();
+            loop {
+                perms.push(p.clone());
+                if !next_permutation(&mut p) {
+                    break;
+                }
+            }
+        } else {
+            let mut s: u64 = 0x9E37_79B9_7F4A_7C15 ^ (n as u64) << 32 ^ quads.len() as u64;
+            for _ in 0..tries {
+                let mut p: Vec<usize> = (0..n).collect();
+                for i in (1..n).rev() {
+                    s ^= s << 13;
+                    s ^= s >> 7;
+                    s ^= s << 17;
+                    p.swap(i, (s % (i as u64 + 1)) as usize);
+                }
+                perms.push(p);
+            }
+        }
+        let mut spent = 0u64;
+        for (k, p) in perms.iter().enumerate() {
+            let map: BTreeMap<&str, String> = labels.iter().enumerate().map(|(i, l)| (l.as_str(), format!("k{:02}", p[i]))).collect();
+            let mut qs: Vec<MQ> = quads.iter().map(|q| q.map_bnodes(&|b| map[b].clone())).collect();
+            // pseudo-random quad order (the order of the related-node lists follows it)
+            let mut sh: u64 = (k as u64 + 1).wrapping_mul(0xD6E8_FEB8_6659_FD93) | 1;
+            for i in (1..qs.len()).rev() {
+                sh ^= sh << 13;
+                sh ^= sh >> 7;
+                sh ^= sh << 17;
+                qs.swap(i, (sh % (i as u64 + 1)) as usize);
+            }
+            match canonicalize_with(&qs, alg, budget, k % 4 >= 2) {
+                Ok(o) => {
+                    spent += o.stats.calls;
+                    out.insert(o.nquads);
+                }
+                Err(_) => break,
+            }
+            if spent > budget.saturating_mul(6) {
+                break;
+            }
+        }
+        out
+    }
+
+    /// 4.4 Canonicalization algorithm followed by serialisation (section 5).
+    pub fn canonicalize(quads_in: &[MQ], alg: Alg, budget: u64) -> Result<Outcome, RefErr> {
+        canonicalize_with(quads_in, alg, budget, false)
+    }
+    pub fn canonicalize_with(quads_in: &[MQ], alg: Alg, budget: u64, tie_last: bool) -> Result<Outcome, RefErr> {
+        // the input is a set
+        let mut quads: Vec<MQ> = vec![];
+        for q in quads_in {
+            if !quads.iter().any(|x| x.same_repr(q)) {
+                quads.push(q.clone());
+            }
+        }
+        // domain
+        for q in &quads {
+            if q.p.is_bnode() {
+                return Err(RefErr::Unsupported("blank predicate".into()));
+            }
+            for t in q.terms() {
+                if t.is_triple() || t.is_var() {
+                    return Err(RefErr::Unsupported("quoted triple or variable".into()));
+                }
+            }
+        }
+        // 1, 2
+        let mut st = State {
+            alg,
+            quads: &quads,
+            b2q: BTreeMap::new(),
+            canonical: Issuer::new("c14n"),
+            stats: Stats::default(),
+            budget,
+            tie_last,
+        };
+        for (i, q) in quads.iter().enumerate() {
+            for t in q.terms() {
+                if let MT::Bnode(b) = t {
+                    let e = st.b2q.entry(b.clone()).or_default();
+                    if e.last() != Some(&i) {
+                        e.push(i);
+                    }
+                }
+            }
+        }
+        st.stats.bnodes = st.b2q.len();
+        // 3
+        let mut fd: BTreeMap<String, String> = BTreeMap::new();
+        let mut h2b: BTreeMap<String, Vec<String>> = BTreeMap::new();
+        let labels: Vec<String> = st.b2q.keys().cloned().collect();
+        for n in &labels {
+            let h = st.hash_first_degree(n);
+            fd.insert(n.clone(), h.clone());
+            h2b.entry(h).or_default().push(n.clone());
+        }
+        // 4
+        let mut rest: Vec<(String, Vec<String>)> = vec![];
+        for (h, list) in h2b {
+            if list.len() > 1 {
+                st.stats.shared_fd += list.len();
+                rest.push((h, list));
+            } else {
+                st.canonical.issue(&list[0]);
+            }
+        }
+        // 5
+        for (_h, list) in rest {
+            let mut hash_path_list: Vec<(String, Issuer)> = vec![];
+            for n in &list {
+                if st.canonical.has(n) {
+                    st.stats.skipped_521 += 1;
+                    continue; // 5.2.1
+                }
+                let mut temp = Issuer::new("b"); // 5.2.2
+                temp.issue(n); // 5.2.3
+                let r = st.hash_n_degree(n, &temp, 0)?; // 5.2.4
+                hash_path_list.push(r);
+            }
+            hash_path_list.sort_by(|a, b| a.0.cmp(&b.0)); // 5.3
+            for w in hash_path_list.windows(2) {
+                if w[0].0 == w[1].0 {
+                    st.stats.ties = true;
+                }
+            }
+            for (_, iss) in hash_path_list {
+                for existing in &iss.order {
+                    st.canonical.issue(existing); // 5.3.1
+                }
+            }
+        }
+        // 6 + serialisation: lines sorted in code point order
+        let idmap = st.canonical.map.clone();
+        let mut lines: Vec<String> = quads.iter().map(|q| quad_nq(q, &|b: &str| idmap[b].clone())).collect();
+        lines.sort();
+        Ok(Outcome { nquads: lines.concat(), idmap, stats: st.stats, fd })
+    }
+}
+
+use rdfc_ref::{Alg, RefErr};
+
+// =====================================================================================
+// Running sophia
+// =====================================================================================
+
+#[derive(Clone, Debug)]
+pub enum SRes {
+    Ok { nq: String, quads: Vec<MQ>, idmap: BTreeMap<String, String> },
+    Toxic(String),
+    Unsupported(String),
+    Other(String),
+}
+impl SRes {
+    pub fn kind(&self) -> &'static str {
+        match self {
+            SRes::Ok { .. } => "ok",
+            SRes::Toxic(_) => "toxic",
+            SRes::Unsupported(_) => "unsupported",
+            SRes::Other(_) => "other-error",
+        }
+    }
+}
+
+fn classify<T, E: std::error::Error + Send + Sync + 'static>(r: Result<T, C14nError<E>>) -> Result<T, SRes> {
+    match r {
+        Ok(v) => Ok(v),
+        Err(C14nError::ToxicGraph(m)) => Err(SRes::Toxic(m)),
+        Err(C14nError::Unsupported(m)) => Err(SRes::Unsupported(m)),
+        Err(e) => Err(SRes::Other(format!("{e:?}"))),
+    }
+}
+
+/// Canonicalise through `normalize_with` and `relabel_with` (and, with the default limits,
+/// through the convenience entry points as well). `Err` = the entry points disagree.
+pub fn run_sophia_on<D: SetDataset + CollectibleDataset>(quads: &[MQ], sha384: bool, df: f32, pl: usize) -> Result<SRes, String> {
+    let d: D = d_from::<D>(quads).map_err(|e| format!("cannot build the container: {e}"))?;
+    let mut out = Vec::<u8>::new();
+    let r1 = if sha384 {
+        classify(rdfc10::normalize_with::<sophia_c14n::hash::Sha384, _, _>(&d, &mut out, df, pl))
+    } else {
+        classify(rdfc10::normalize_with::<sophia_c14n::hash::Sha256, _, _>(&d, &mut out, df, pl))
+    };
+    let r2 = if sha384 {
+        classify(rdfc10::relabel_with::<sophia_c14n::hash::Sha384, _>(&d, df, pl))
+    } else {
+        classify(rdfc10::relabel_with::<sophia_c14n::hash::Sha256, _>(&d, df, pl))
+    };
+    let is_default = df == rdfc10::DEFAULT_DEPTH_FACTOR && pl == rdfc10::DEFAULT_PERMUTATION_LIMIT;
+    let res = match (r1, r2) {
+        (Ok(()), Ok((cq, idmap))) => {
+            let nq = String::from_utf8(out).map_err(|e| format!("output is not UTF-8: {e}"))?;
+            let quads: Vec<MQ> = cq
+                .iter()
+                .map(|(spo, g)| {
+                    use sophia_api::term::Term;
+                    MQ::new(MT::from_term(spo[0].borrow_term()), MT::from_term(spo[1].borrow_term()), MT::from_term(spo[2].borrow_term()), g.as_ref().map(|g| MT::from_term(g.borrow_term())))
+                })
+                .collect();
+            let idmap = idmap.iter().map(|(k, v)| (k.to_string(), v.as_str().to_string())).collect();
+            SRes::Ok { nq, quads, idmap }
+        }
+        (Err(a), Err(b)) => {
+            if a.kind() != b.kind() {
+                return Err(format!("normalize_with -> {a:?} but relabel_with -> {b:?}"));
+            }
+            a
+        }
+        (Ok(()), Err(b)) => return Err(format!("normalize_with succeeded but relabel_with -> {b:?}")),
+        (Err(a), Ok(_)) => return Err(format!("relabel_with succeeded but normalize_with -> {a:?}")),
+    };
+    if is_default {
+        // the convenience functions must be the same thing
+        let r4 = if sha384 { classify(rdfc10::relabel_sha384(&d)) } else { classify(rdfc10::relabel(&d)) };
+        match (&res, r4) {
+            (SRes::Ok { idmap, .. }, Ok((_, m))) => {
+                let m: BTreeMap<String, String> = m.iter().map(|(k, v)| (k.to_string(), v.as_str().to_string())).collect();
+                if &m != idmap {
+                    return Err(format!("relabel/relabel_sha384 id map {m:?} differs from relabel_with(defaults) {idmap:?} on the same dataset value"));
+                }
+            }
+            (a, Err(b)) if a.kind() == b.kind() => {}
+            (a, b) => return Err(format!("relabel (defaults) -> {:?} but relabel_with(defaults) -> {a:?}", b.map(|_| "Ok"))),
+        }
+        let mut out2 = Vec::<u8>::new();
+        let r3 = if sha384 { classify(rdfc10::normalize_sha384(&d, &mut out2)) } else { classify(rdfc10::normalize(&d, &mut out2)) };
+        match (&res, r3) {
+            (SRes::Ok { nq, .. }, Ok(())) => {
+                if nq.as_bytes() != &out2[..] {
+                    return Err("normalize/normalize_sha384 differs from normalize_with(defaults)".into());
+                }
+            }
+            (SRes::Ok { .. }, Err(e)) => return Err(format!("normalize (defaults) -> {e:?} but normalize_with(defaults) succeeded")),
+            (other, Ok(())) => return Err(format!("normalize (defaults) succeeded but normalize_with(defaults) -> {other:?}")),
+            (a, Err(b)) => {
+                if a.kind() != b.kind() {
+                    return Err(format!("normalize (defaults) -> {b:?} but normalize_with(defaults) -> {a:?}"));
+                }
+            }
+        }
+    }
+    Ok(res)
+}
+
+pub const CONTAINERS: &[&str] = &["HashSet<Spog>", "BTreeSet<Gspo>", "FastDataset", "LightDataset", "BTreeSet<Spog>", "HashSet<Gspo>"];
+
+pub fn run_sophia(container: u8, quads: &[MQ], sha384: bool, df: f32, pl: usize) -> Result<SRes, String> {
+    match container as usize % CONTAINERS.len() {
+        0 => run_sophia_on::<HashSpog>(quads, sha384, df, pl),
+        1 => run_sophia_on::<BTreeGspo>(quads, sha384, df, pl),
+        2 => run_sophia_on::<FastDataset>(quads, sha384, df, pl),
+        3 => run_sophia_on::<LightDataset>(quads, sha384, df, pl),
+        4 => run_sophia_on::<BTreeSpog>(quads, sha384, df, pl),
+        _ => run_sophia_on::<HashGspo>(quads, sha384, df, pl),
+    }
+}
+
+// =====================================================================================
+// Dataset generator for the supported domain (shared with C05)
+// =====================================================================================
+
+pub const P: &str = "http://x/p";
+pub const Q: &str = "http://x/q";
+
+/// Blank-node structure: the shapes of `gen::Shape` plus circulant digraphs
+/// (vertex-transitive, every node has the same in/out degree) and an explicit arc list.
+#[derive(Clone, Debug, Serialize, Deserialize)]
+pub enum Sh {
+    Lib(Shape),
+    /// i -> i+a, i -> i+b (mod n)
+    Circulant(usize, usize, usize),
+    /// n nodes, arcs given explicitly
+    Arcs(usize, Vec<(usize, usize)>),
+}
+impl Sh {
+    pub fn arcs(&self) -> (usize, Vec<(usize, usize)>) {
+        match self {
+            Sh::Lib(s) => s.arcs(),
+            Sh::Circulant(n, a, b) => {
+                let n = (*n).max(1);
+                let mut v = vec![];
+                for i in 0..n {
+                    v.push((i, (i + a) % n));
+                    if b % n != a % n {
+                        v.push((i, (i + b) % n));
+                    }
+                }
+                (n, v)
+            }
+            Sh::Arcs(n, a) => (*n, a.iter().map(|(x, y)| (x % n.max(&1), y % n.max(&1))).collect()),
+        }
+    }
+    pub fn family(&self) -> String {
+        match self {
+            Sh::Lib(Shape::Cycle(_)) => "cycle".into(),
+            Sh::Lib(Shape::Rho(..)) => "rho".into(),
+            Sh::Lib(Shape::Clique(_)) => "clique".into(),
+            Sh::Lib(Shape::Star(_)) => "star".into(),
+            Sh::Lib(Shape::Bipartite(..)) => "bipartite".into(),
+            Sh::Lib(Shape::Path(_)) => "path".into(),
+            Sh::Lib(Shape::TwoCycles(_)) => "two-cycles".into(),
+            Sh::Lib(Shape::Tree(_)) => "tree".into(),
+            Sh::Lib(Shape::SelfLoop) => "self-loop".into(),
+            Sh::Circulant(..) => "circulant".into(),
+            Sh::Arcs(..) => "random-arcs".into(),
+        }
+    }
+}
+
+/// Where the quads of a component live.
+#[derive(Clone, Debug, Serialize, Deserialize)]
+pub enum GSel {
+    Default,
+    Iri,
+    /// a blank node used only as graph name
+    PureBlank,
+    /// node 0 of the component is also the graph name
+    Node0,
+}
+
+#[derive(Clone, Debug, Serialize, Deserialize)]
+pub struct Comp {
+    pub sh: Sh,
+    pub pred: u8,
+    pub graph: GSel,
+    /// how many disjoint copies (isomorphic components)
+    pub copies: u8,
+}
+
+#[derive(Clone, Debug, Serialize, Deserialize)]
+pub enum Deco {
+    /// node (index into the list of all blank nodes) -> ground object
+    Out(usize, u8, MT),
+    /// ground subject -> node
+    In(u8, u8, usize),
+    /// extra arc between two existing nodes
+    Arc(usize, u8, usize, bool),
+    /// fully ground quad
+    Ground(u8, u8, MT),
+}
+
+#[derive(Clone, Debug, Serialize, Deserialize)]
+pub struct DsSpec {
+    pub comps: Vec<Comp>,
+    pub decos: Vec<Deco>,
+    /// also put the *reversed* arcs of the first component into another graph
+    /// (0 = no, 1 = IRI-named graph, 2 = blank-named graph): chiral structures
+    #[serde(default)]
+    pub mirror: u8,
+}
+
+fn pred_iri(i: u8) -> &'static str {
+    if i % 2 == 0 {
+        P
+    } else {
+        Q
+    }
+}
+fn subj_iri(i: u8) -> String {
+    ["http://x/a", "http://x/b", "http://x/a9", "tag:a"][i as usize % 4].to_string()
+}
+
+impl DsSpec {
+    pub fn build(&self) -> Vec<MQ> {
+        let mut out: Vec<MQ> = vec![];
+        let mut nodes: Vec<String> = vec![];
+        for (ci, c) in self.comps.iter().enumerate() {
+            let (n, arcs) = c.sh.arcs();
+            for copy in 0..c.copies.max(1) {
+                let prefix = format!("{}{}n", (b'e' + ci as u8) as char, (b'a' + copy) as char);
+                let g = match c.graph {
+                    GSel::Default => None,
+                    GSel::Iri => Some(MT::iri("http://x/g1")),
+                    GSel::PureBlank => Some(MT::bn(format!("{prefix}G"))),
+                    GSel::Node0 => Some(MT::bn(format!("{prefix}0"))),
+                };
+                for i in 0..n {
+                    nodes.push(format!("{prefix}{i}"));
+                }
+                for (a, b) in &arcs {
+                    out.push(MQ::new(MT::bn(format!("{prefix}{a}")), MT::iri(pred_iri(c.pred)), MT::bn(format!("{prefix}{b}")), g.clone()));
+                    if ci == 0 && self.mirror % 3 != 0 {
+                        let mg = if self.mirror % 3 == 1 { MT::iri("http://x/g2") } else { MT::bn("mirrorG") };
+                        out.push(MQ::new(MT::bn(format!("{prefix}{b}")), MT::iri(pred_iri(c.pred)), MT::bn(format!("{prefix}{a}")), Some(mg)));
+                    }
+                }
+            }
+        }
+        for d in &self.decos {
+            match d {
+                Deco::Out(i, p, o) if !nodes.is_empty() => {
+                    out.push(MQ::new(MT::bn(nodes[i % nodes.len()].clone()), MT::iri(pred_iri(*p)), o.clone(), None))
+                }
+                Deco::In(s, p, i) if !nodes.is_empty() => {
+                    out.push(MQ::new(MT::iri(subj_iri(*s)), MT::iri(pred_iri(*p)), MT::bn(nodes[i % nodes.len()].clone()), None))
+                }
+                Deco::Arc(a, p, b, ing) if !nodes.is_empty() => out.push(MQ::new(
+                    MT::bn(nodes[a % nodes.len()].clone()),
+                    MT::iri(pred_iri(*p)),
+                    MT::bn(nodes[b % nodes.len()].clone()),
+                    if *ing { Some(MT::iri("http://x/g1")) } else { None },
+                )),
+                Deco::Ground(s, p, o) => out.push(MQ::new(MT::iri(subj_iri(*s)), MT::iri(pred_iri(*p)), o.clone(), None)),
+                _ => {}
+            }
+        }
+        normalise_dataset(out)
+    }
+    pub fn families(&self) -> Vec<String> {
+        let mut v: Vec<String> = self.comps.iter().map(|c| c.sh.family()).collect();
+        if self.mirror % 3 != 0 {
+            v.push("mirrored-in-other-graph".into());
+        }
+        v
+    }
+}
+
+/// A dataset as the containers see it: no duplicates under `Term::eq`, and one spelling per
+/// (lexical form, case-folded tag) so that no container can merge two spellings of a tag.
+pub fn normalise_dataset(qs: Vec<MQ>) -> Vec<MQ> {
+    fn fix(t: &MT, seen: &mut BTreeMap<(String, String), String>) -> MT {
+        match t {
+            MT::Lang(l, tag) => {
+                let k = (l.clone(), tag.to_ascii_lowercase());
+                let sp = seen.entry(k).or_insert_with(|| tag.clone()).clone();
+                MT::Lang(l.clone(), sp)
+            }
+            MT::Triple(tr) => MT::triple(fix(&tr[0], seen), fix(&tr[1], seen), fix(&tr[2], seen)),
+            x => x.clone(),
+        }
+    }
+    let mut seen = BTreeMap::new();
+    let qs: Vec<MQ> = qs
+        .iter()
+        .map(|q| MQ::new(fix(&q.s, &mut seen), fix(&q.p, &mut seen), fix(&q.o, &mut seen), q.g.as_ref().map(|g| fix(g, &mut seen))))
+        .collect();
+    dedup(qs)
+}
+
+/// literals over the escape-relevant alphabet (U+FFFE / U+FFFF excluded, see assumptions)
+pub fn ground_object() -> BoxedStrategy<MT> {
+    let lex = lexical(6).prop_map(|s| s.chars().filter(|c| *c != '\u{FFFE}' && *c != '\u{FFFF}').collect::<String>());
+    let esc = prop::collection::vec(
+        pick(vec!['"', '\\', '\n', '\r', '\t', '\u{8}', '\u{c}', '\u{0}', '\u{1}', '\u{7}', '\u{b}', '\u{e}', '\u{1f}', '\u{7f}', '\u{80}', '\u{85}', ' ', 'a', 'é', '\u{10000}', '\u{FFFD}', '\u{20}', '~']),
+        0..5,
+    )
+    .prop_map(|v| v.into_iter().collect::<String>());
+    let lex = prop_oneof![2 => lex, 3 => esc].boxed();
+    prop_oneof![
+        3 => pick(vec![MT::iri("http://x/a"), MT::iri("http://x/b"), MT::iri("http://x/a9"), MT::iri("tag:a"), MT::iri("http://é.example/ç?q=é#frag")]),
+        3 => (lex.clone(), pick(datatypes())).prop_map(|(l, d)| MT::Lit(l, d)),
+        2 => lex.clone().prop_map(MT::string),
+        2 => (lex, pick(tags())).prop_map(|(l, t)| MT::Lang(l, t)),
+    ]
+    .boxed()
+}
+
+pub fn sh_strategy(max_nodes: usize) -> BoxedStrategy<Sh> {
+    let m = max_nodes.max(3);
+    prop_oneof![
+        3 => (1..=m).prop_map(|n| Sh::Lib(Shape::Cycle(n))),
+        1 => (1..=m / 2, 1..=m / 2).prop_map(|(a, b)| Sh::Lib(Shape::Rho(a, b))),
+        2 => (2..=5usize).prop_map(|n| Sh::Lib(Shape::Clique(n))),
+        2 => (1..=m - 1).prop_map(|n| Sh::Lib(Shape::Star(n))),
+        2 => (1..=3usize, 1..=3usize).prop_map(|(a, b)| Sh::Lib(Shape::Bipartite(a, b))),
+        2 => (1..=m - 1).prop_map(|n| Sh::Lib(Shape::Path(n))),
+        2 => (1..=m / 2).prop_map(|n| Sh::Lib(Shape::TwoCycles(n))),
+        2 => (2..=m).prop_map(|n| Sh::Lib(Shape::Tree(n))),
+        1 => Just(Sh::Lib(Shape::SelfLoop)),
+        3 => (3..=m.min(10), 1..=3usize, 1..=4usize).prop_map(|(n, a, b)| Sh::Circulant(n, a, b)),
+        2 => (1..=5usize).prop_flat_map(|n| (Just(n), prop::collection::vec((0..n, 0..n), 1..=8))).prop_map(|(n, a)| Sh::Arcs(n, a)),
+    ]
+    .boxed()
+}
+
+pub fn ds_strategy(max_nodes: usize) -> BoxedStrategy<DsSpec> {
+    let gsel = prop_oneof![5 => Just(GSel::Default), 1 => Just(GSel::Iri), 1 => Just(GSel::PureBlank), 1 => Just(GSel::Node0)];
+    let comp = (sh_strategy(max_nodes), 0..2u8, gsel, prop_oneof![5 => Just(1u8), 2 => Just(2u8), 1 => Just(3u8)])
+        .prop_map(|(sh, pred, graph, copies)| Comp { sh, pred, graph, copies });
+    let deco = prop_oneof![
+        3 => (0..32usize, 0..2u8, ground_object()).prop_map(|(i, p, o)| Deco::Out(i, p, o)),
+        2 => (0..4u8, 0..2u8, 0..32usize).prop_map(|(s, p, i)| Deco::In(s, p, i)),
+        2 => (0..32usize, 0..2u8, 0..32usize, any::<bool>()).prop_map(|(a, p, b, g)| Deco::Arc(a, p, b, g)),
+        1 => (0..4u8, 0..2u8, ground_object()).prop_map(|(s, p, o)| Deco::Ground(s, p, o)),
+    ];
+    (prop::collection::vec(comp, 1..=3), prop_oneof![2 => Just(vec![]).boxed(), 3 => prop::collection::vec(deco, 0..=4).boxed()], prop_oneof![8 => Just(0u8), 1 => Just(1u8), 1 => Just(2u8)])
+        .prop_map(move |(mut comps, decos, mirror)| {
+            // bound the number of blank nodes
+            let mut total = 0usize;
+            comps.retain_mut(|c| {
+                let (n, _) = c.sh.arcs();
+                let per = n + if matches!(c.graph, GSel::PureBlank) { 1 } else { 0 };
+                while c.copies > 1 && total + per * c.copies as usize > max_nodes {
+                    c.copies -= 1;
+                }
+                if total + per * c.copies.max(1) as usize > max_nodes && total > 0 {
+                    return false;
+                }
+                total += per * c.copies.max(1) as usize;
+                true
+            });
+            DsSpec { comps, decos, mirror }
+        })
+        .boxed()
+}
+
+// =====================================================================================
+// The check
+// =====================================================================================
+
+pub const DEPTH_FACTORS: &[f32] = &[1.0, 0.0, 0.5, 4.0, 2.0, 0.25];
+pub const PERM_LIMITS: &[usize] = &[6, 1, 2, 8, 3, 4];
+
+#[derive(Clone, Debug, Serialize, Deserialize)]
+pub enum Input {
+    Spec(DsSpec),
+    /// explicit quads (corpus files, shipped examples, unsupported-input cases)
+    Quads(Vec<MQ>),
+    /// enumerated digraph: bit k of `mask` selects arc k over `n` nodes and colour scheme `scheme`
+    Enumerated { n: u8, scheme: u8, mask: u64, deco: bool },
+}
+
+#[derive(Clone, Debug, Serialize, Deserialize)]
+pub struct Case {
+    pub input: Input,
+    pub sha384: bool,
+    pub df: u8,
+    pub pl: u8,
+    pub container: u8,
+    /// expected canonical document for shipped examples (fixed cases only)
+    #[serde(default)]
+    pub expect: Option<String>,
+}
+
+pub struct C06;
+
+pub fn ref_budget(tier_thorough: bool) -> u64 {
+    if tier_thorough {
+        400_000
+    } else {
+        60_000
+    }
+}
+
+fn has_escape_char(qs: &[MQ]) -> bool {
+    qs.iter().any(|q| {
+        q.o.lexical()
+            .map(|l| l.chars().any(|c| (c as u32) < 0x20 || c == '\u{7f}' || c == '"' || c == '\\'))
+            .unwrap_or(false)
+    })
+}
+
+fn unsupported_reason(qs: &[MQ]) -> Option<&'static str> {
+    for q in qs {
+        if q.p.is_bnode() {
+            return Some("blank-predicate");
+        }
+    }
+    for q in qs {
+        for t in q.terms() {
+            if t.is_triple() {
+                return Some("quoted-triple");
+            }
+            if t.is_var() {
+                return Some("variable");
+            }
+        }
+    }
+    None
+}
+
+/// signature component describing the structural trigger of a divergence
+fn trigger(qs: &[MQ], st: &rdfc_ref::Stats) -> &'static str {
+    let self_loop = qs.iter().any(|q| {
+        let b = q.bnodes();
+        let mut s = BTreeSet::new();
+        b.iter().any(|x| !s.insert(*x))
+    });
+    if self_loop {
+        "bnode-twice-in-one-quad"
+    } else if st.skipped_521 > 0 {
+        "node-reached-from-earlier-group"
+    } else if st.max_temp_ids >= 11 {
+        "ten-or-more-temporary-ids"
+    } else if st.ties {
+        "equal-n-degree-hashes"
+    } else if st.shared_fd > 0 {
+        "shared-first-degree-hash"
+    } else if has_escape_char(qs) {
+        "escape-relevant-literal"
+    } else {
+        "plain"
+    }
+}
+
+fn shipped_examples() -> Vec<(Vec<MQ>, bool, &'static str)> {
+    let e = |l: &str| MT::iri(format!("http://example.com/#{l}"));
+    let b = |i: usize| MT::bn(format!("e{i}"));
+    let q3 = |s: MT, p: MT, o: MT| MQ::new(s, p, o, None);
+    let ex2 = vec![q3(e("p"), e("q"), b(0)), q3(e("p"), e("r"), b(1)), q3(b(0), e("s"), e("u")), q3(b(1), e("t"), e("u"))];
+    let ex3 = vec![q3(e("p"), e("q"), b(0)), q3(e("p"), e("q"), b(1)), q3(b(0), e("p"), b(2)), q3(b(1), e("p"), b(3)), q3(b(2), e("r"), b(3))];
+    let cyc = |n: usize, off: usize| -> Vec<MQ> { (0..n).map(|i| q3(b(off + i), e("p"), b(off + (i + 1) % n))).collect() };
+    let mut clique5 = vec![];
+    for i in 0..5 {
+        for j in 0..5 {
+            if i != j {
+                clique5.push(q3(b(i), e("p"), b(j)));
+            }
+        }
+    }
+    let mut c23 = cyc(2, 0);
+    c23.extend(cyc(3, 2));
+    let t = |l: &str| MT::iri(format!("tag:{l}"));
+    let tricky = vec![
+        q3(t("a"), t("p"), MT::bn("a")),
+        q3(t("a"), t("p"), t("a")),
+        q3(t("a"), t("p"), MT::string("a")),
+        q3(t("a"), t("p"), MT::string("a!")),
+        q3(t("a9"), t("p"), MT::string("a!")),
+    ];
+    let clique_exp: String = {
+        let mut s = String::new();
+        for i in 0..5 {
+            for j in 0..5 {
+                if i != j {
+                    s.push_str(&format!("_:c14n{i} <http://example.com/#p> _:c14n{j} .\n"));
+                }
+            }
+        }
+        s
+    };
+    let leak: &'static str = Box::leak(clique_exp.into_boxed_str());
+    vec![
+        (ex2.clone(), false, "<http://example.com/#p> <http://example.com/#q> _:c14n0 .\n<http://example.com/#p> <http://example.com/#r> _:c14n1 .\n_:c14n0 <http://example.com/#s> <http://example.com/#u> .\n_:c14n1 <http://example.com/#t> <http://example.com/#u> .\n"),
+        (ex3, false, "<http://example.com/#p> <http://example.com/#q> _:c14n2 .\n<http://example.com/#p> <http://example.com/#q> _:c14n3 .\n_:c14n0 <http://example.com/#r> _:c14n1 .\n_:c14n2 <http://example.com/#p> _:c14n1 .\n_:c14n3 <http://example.com/#p> _:c14n0 .\n"),
+        (cyc(5, 0), false, "_:c14n0 <http://example.com/#p> _:c14n4 .\n_:c14n1 <http://example.com/#p> _:c14n0 .\n_:c14n2 <http://example.com/#p> _:c14n1 .\n_:c14n3 <http://example.com/#p> _:c14n2 .\n_:c14n4 <http://example.com/#p> _:c14n3 .\n"),
+        (clique5, false, leak),
+        (c23, false, "_:c14n0 <http://example.com/#p> _:c14n1 .\n_:c14n1 <http://example.com/#p> _:c14n0 .\n_:c14n2 <http://example.com/#p> _:c14n4 .\n_:c14n3 <http://example.com/#p> _:c14n2 .\n_:c14n4 <http://example.com/#p> _:c14n3 .\n"),
+        (tricky, false, "<tag:a9> <tag:p> \"a!\" .\n<tag:a> <tag:p> \"a!\" .\n<tag:a> <tag:p> \"a\" .\n<tag:a> <tag:p> <tag:a> .\n<tag:a> <tag:p> _:c14n0 .\n"),
+        (ex2, true, "<http://example.com/#p> <http://example.com/#q> _:c14n1 .\n<http://example.com/#p> <http://example.com/#r> _:c14n0 .\n_:c14n0 <http://example.com/#t> <http://example.com/#u> .\n_:c14n1 <http://example.com/#s> <http://example.com/#u> .\n"),
+    ]
+}
+
+/// every digraph (self-loops allowed) on `n` labelled blank nodes, over the given
+/// (predicate, graph) "colours": bit k of `mask` selects arc k
+fn schemes(i: u8) -> Vec<(u8, Option<MT>)> {
+    match i {
+        0 => vec![(0, None)],
+        1 => vec![(0, None), (1, None)],
+        2 => vec![(0, None), (0, Some(MT::bn("v0"))), (0, Some(MT::bn("gg")))],
+        3 => vec![(0, None), (0, Some(MT::bn("gg")))],
+        _ => vec![(0, None), (1, None), (0, Some(MT::bn("gg"))), (1, Some(MT::bn("v1")))],
+    }
+}
+fn enumerated(n: usize, scheme: u8, mask: u64, deco: bool) -> Vec<MQ> {
+    let colours = &schemes(scheme);
+    let mut out = vec![];
+    let mut k = 0;
+    for (p, g) in colours {
+        for a in 0..n {
+            for b in 0..n {
+                if mask >> k & 1 == 1 {
+                    out.push(MQ::new(MT::bn(format!("v{a}")), MT::iri(pred_iri(*p)), MT::bn(format!("v{b}")), g.clone()));
+                }
+                k += 1;
+            }
+        }
+    }
+    if deco && !out.is_empty() {
+        out.push(MQ::new(MT::bn("v0"), MT::iri(P), MT::iri("http://x/a"), None));
+    }
+    out
+}
+
+impl Check for C06 {
+    type Case = Case;
+    const ID: &'static str = "C06";
+    fn rule() -> String {
+        "datasets of the supported domain (enumerated: every digraph with self-loops on <=3 blank nodes, two-predicate / blank-graph-name variants on <=2; sampled: cycles, rho, cliques, stars, bipartite, paths, trees, circulants, disjoint copies, up to 14 blank nodes, decorated with ground arcs and literals over the escape alphabet) x SHA-256/384 x depth factor x permutation limit x container; oracle = independent unpruned RDFC-1.0 reference (bytes and issued-identifier map), ToxicGraph judged against what the reference explored. Non-trivial = sophia's answer was compared/judged AND (>=2 blank nodes share a first-degree hash, or a literal holds an escape-relevant character, or the answer was ToxicGraph/Unsupported); distinct by hash of the case."
+            .into()
+    }
+    fn assumptions() -> Vec<String> {
+        vec![
+            "U+FFFE/U+FFFF are excluded from literals (the 'not matching XML Char' clause of canonical N-Quads is not checked)".into(),
+            "language tags are written as given (no case folding), datatype xsd:string is omitted".into(),
+            "the 'hash to related blank nodes map' of Hash N-Degree Quads holds one entry per (quad, position) occurrence, i.e. a related node met twice is listed twice (the reading of the W3C reference implementations); the blank-node-to-quads map holds each quad once per blank node".into(),
+            "when two results of one hash path list have equal hashes, or two permutations of a blank node list give equal paths, the Recommendation leaves the order open: the issued-identifier map is then only required to be a bijection onto c14n0..c14n(n-1) that reproduces the canonical document (otherwise it must be identical to the reference's)".into(),
+            "cases whose unpruned reference exploration exceeds a fixed work budget are skipped (counted in class ref-budget-exceeded)".into(),
+            "on inputs where the open orders of the Recommendation lead to different documents (RDFC-1.0 itself ambiguous; found: same-predicate arcs between the same blank nodes in two graphs with opposite orientation) any document the reference produces on some relabelled copy is accepted; if sophia's document differs from the reference's while ties exist and is not among the documents found, the case is counted as unresolved (classes *unresolved*), not failed".into(),
+            "literal subjects/graph names and non-IRI non-blank predicates are outside the generated domain".into(),
+        ]
+    }
+    fn cases(tier: Tier) -> u32 {
+        tier.pick(6_000, 240_000)
+    }
+    fn strategy(_tier: Tier) -> BoxedStrategy<Case> {
+        let unsupported = (ds_strategy(6), 0..3u8, 0..4usize).prop_map(|(spec, kind, pos)| {
+            let mut qs = spec.build();
+            let bad = match kind {
+                0 => MQ::new(MT::iri("http://x/a"), MT::bn("pp"), MT::iri("http://x/b"), None),
+                1 => {
+                    let tr = MT::triple(MT::iri("http://x/a"), MT::iri(P), MT::bn("inner"));
+                    if pos % 2 == 0 {
+                        MQ::new(tr, MT::iri(P), MT::iri("http://x/b"), None)
+                    } else {
+                        MQ::new(MT::iri("http://x/a"), MT::iri(P), tr, None)
+                    }
+                }
+                _ => match pos % 3 {
+                    0 => MQ::new(MT::var("v"), MT::iri(P), MT::iri("http://x/b"), None),
+                    1 => MQ::new(MT::iri("http://x/a"), MT::iri(P), MT::var("v"), None),
+                    _ => MQ::new(MT::iri("http://x/a"), MT::iri(P), MT::iri("http://x/b"), Some(MT::var("v"))),
+                },
+            };
+            let at = if qs.is_empty() { 0 } else { pos % (qs.len() + 1) };
+            qs.insert(at, bad);
+            Input::Quads(qs)
+        });
+        let input = prop_oneof![
+            12 => ds_strategy(14).prop_map(Input::Spec),
+            6 => ds_strategy(7).prop_map(Input::Spec),
+            1 => unsupported,
+        ];
+        let df = prop_oneof![5 => Just(0u8), 4 => 1..DEPTH_FACTORS.len() as u8];
+        let pl = prop_oneof![5 => Just(0u8), 4 => 1..PERM_LIMITS.len() as u8];
+        (input, any::<bool>(), df, pl, 0..CONTAINERS.len() as u8)
+            .prop_map(|(input, sha384, df, pl, container)| Case { input, sha384, df, pl, container, expect: None })
+            .boxed()
+    }
+    fn fixed_cases(tier: Tier, _seed: u64) -> Vec<Case> {
+        let mut v = vec![];
+        // the examples shipped with the crate validate the reference itself
+        for (qs, sha384, exp) in shipped_examples() {
+            for container in 0..4u8 {
+                v.push(Case { input: Input::Quads(qs.clone()), sha384, df: 0, pl: 0, container, expect: Some(exp.to_string()) });
+            }
+        }
+        let en = |n: u8, scheme: u8, mask: u64, deco: bool| Input::Enumerated { n, scheme, mask, deco };
+        // every digraph on <= 3 blank nodes, one predicate, with self-loops; with and without
+        // a ground arc; default limits with both hashes, plus the strictest limits
+        for mask in 0..512u64 {
+            for deco in [false, true] {
+                v.push(Case { input: en(3, 0, mask, deco), sha384: false, df: 0, pl: 0, container: (mask % 4) as u8, expect: None });
+                v.push(Case { input: en(3, 0, mask, deco), sha384: true, df: 0, pl: 0, container: ((mask + 1) % 4) as u8, expect: None });
+                if !deco {
+                    v.push(Case { input: en(3, 0, mask, deco), sha384: false, df: 1, pl: 0, container: 0, expect: None });
+                    v.push(Case { input: en(3, 0, mask, deco), sha384: false, df: 2, pl: 1, container: 1, expect: None });
+                    v.push(Case { input: en(3, 0, mask, deco), sha384: false, df: 0, pl: 2, container: 2, expect: None });
+                }
+            }
+        }
+        // <= 2 nodes, two predicates (2^8)
+        for mask in 0..256u64 {
+            v.push(Case { input: en(2, 1, mask, false), sha384: false, df: 0, pl: 0, container: (mask % 4) as u8, expect: None });
+        }
+        // <= 2 nodes, one predicate, default graph / graph named by node 0 / graph named by a third blank node (2^12)
+        for mask in 0..4096u64 {
+            v.push(Case { input: en(2, 2, mask, false), sha384: mask % 2 == 1, df: 0, pl: 0, container: (mask % 4) as u8, expect: None });
+        }
+        if tier == Tier::Thorough {
+            // 3 nodes, default graph + blank-named graph (2^18)
+            for mask in 0..(1u64 << 18) {
+                v.push(Case { input: en(3, 3, mask, false), sha384: false, df: 0, pl: 0, container: (mask % 4) as u8, expect: None });
+            }
+            // 2 nodes, two predicates x {default, blank graph} (2^16)
+            for mask in 0..(1u64 << 16) {
+                v.push(Case { input: en(2, 4, mask, false), sha384: false, df: 0, pl: 0, container: (mask % 4) as u8, expect: None });
+            }
+        }
+        v
+    }
+    fn show(case: &Case) -> serde_json::Value {
+        let qs = case_quads(case);
+        serde_json::json!({
+            "quads": qs.iter().map(MQ::show).collect::<Vec<_>>(),
+            "hash": if case.sha384 { "SHA-384" } else { "SHA-256" },
+            "depth_factor": DEPTH_FACTORS[case.df as usize % DEPTH_FACTORS.len()],
+            "permutation_limit": PERM_LIMITS[case.pl as usize % PERM_LIMITS.len()],
+            "container": CONTAINERS[case.container as usize % CONTAINERS.len()],
+        })
+    }
+    fn run(case: &Case, ctx: &mut Ctx) {
+        let qs = case_quads(case);
+        let df = DEPTH_FACTORS[case.df as usize % DEPTH_FACTORS.len()];
+        let pl = PERM_LIMITS[case.pl as usize % PERM_LIMITS.len()];
+        let alg = if case.sha384 { Alg::Sha384 } else { Alg::Sha256 };
+        match &case.input {
+            Input::Spec(s) => {
+                for f in s.families() {
+                    ctx.class(format!("family:{f}"));
+                }
+            }
+            Input::Enumerated { scheme, .. } => ctx.class(format!("enumerated:scheme{scheme}")),
+            Input::Quads(_) => {}
+        }
+        ctx.class(format!("hash:{}", if case.sha384 { "sha384" } else { "sha256" }));
+        ctx.class(format!("df:{df}"));
+        ctx.class(format!("pl:{pl}"));
+        ctx.class(format!("container:{}", CONTAINERS[case.container as usize % CONTAINERS.len()]));
+
+        // ---- reference
+        let budget = ref_budget(false);
+        let t0 = std::time::Instant::now();
+        let reference = rdfc_ref::canonicalize(&qs, alg, budget);
+        if std::env::var_os("VERIF_TIMING").is_some() {
+            eprintln!("ref: {} ms {:?}", t0.elapsed().as_millis(), reference.as_ref().map(|r| r.stats.clone()).map_err(|_| "err"));
+        }
+        let unsup = unsupported_reason(&qs);
+        let reference = match reference {
+            Err(RefErr::Budget) => {
+                ctx.class("ref-budget-exceeded");
+                return;
+            }
+            Err(RefErr::Unsupported(_)) => None,
+            Ok(o) => Some(o),
+        };
+        assert_eq!(reference.is_none(), unsup.is_some(), "reference and domain predicate disagree");
+
+        // the shipped expected outputs validate the reference
+        if let (Some(exp), Some(r)) = (&case.expect, &reference) {
+            ctx.class("shipped-example");
+            if &r.nquads != exp {
+                ctx.fail("harness/reference-vs-shipped-example", format!("the harness reference disagrees with the expected output shipped in c14n/src/rdfc10.rs\n ref:\n{}\n exp:\n{}", r.nquads, exp));
+                return;
+            }
+        }
+
+        // ---- sophia
+        let t0 = std::time::Instant::now();
+        let got = catch(|| run_sophia(case.container, &qs, case.sha384, df, pl));
+        if std::env::var_os("VERIF_TIMING").is_some() {
+            eprintln!("sophia: {} ms", t0.elapsed().as_millis());
+            let alts = rdfc_ref::alt_docs(&qs, alg, budget, 40);
+            eprintln!("documents produced by the reference on relabelled copies: {}", alts.len());
+            for a in &alts {
+                eprintln!("---\n{a}");
+            }
+            if let Ok(Ok(SRes::Ok { nq, .. })) = &got {
+                eprintln!("--- sophia:\n{nq}");
+            }
+        }
+        let got = match got {
+            Ok(Ok(r)) => r,
+            Ok(Err(incoherent)) => {
+                ctx.fail("c14n/entry-points-disagree", format!("{incoherent}\n{}", show_quads(&qs)));
+                return;
+            }
+            Err(p) => {
+                ctx.fail(format!("c14n/panic/{}", panic_site(&p)), format!("canonicalisation panicked: {p}\n{}", show_quads(&qs)));
+                return;
+            }
+        };
+        ctx.class(format!("result:{}", got.kind()));
+
+        // ---- unsupported input
+        if let Some(why) = unsup {
+            ctx.class(format!("unsupported:{why}"));
+            ctx.nontrivial();
+            if !matches!(got, SRes::Unsupported(_)) {
+                ctx.fail(format!("c14n/unsupported-not-reported/{why}"), format!("input has a {why} but the result is {got:?}\n{}", show_quads(&qs)));
+            }
+            return;
+        }
+        let r = reference.unwrap();
+        let st = &r.stats;
+        ctx.class(format!("bnodes:{}", match st.bnodes { 0 => "0", 1 => "1", 2..=3 => "2-3", 4..=7 => "4-7", 8..=10 => "8-10", _ => "11+" }));
+        if st.shared_fd > 0 {
+            ctx.class("shared-first-degree-hash");
+        }
+        if st.max_temp_ids >= 11 {
+            ctx.class("temp-ids>=11");
+        }
+        if st.bnodes >= 11 {
+            ctx.class("canonical-ids>=11");
+        }
+        if st.ties {
+            ctx.class("equal-n-degree-hashes");
+        }
+        if st.skipped_521 > 0 {
+            ctx.class("step-5.2.1-skip");
+        }
+        if st.max_depth > 0 {
+            ctx.class(format!("recursion-depth:{}", match st.max_depth { 1 => "1", 2..=3 => "2-3", 4..=7 => "4-7", _ => "8+" }));
+        }
+        if st.max_group > 1 {
+            ctx.class(format!("perm-group:{}", st.max_group.min(7)));
+        }
+        let esc = has_escape_char(&qs);
+        if esc {
+            ctx.class("escape-relevant-literal");
+        }
+        let trig = trigger(&qs, st);
+        let group_exceeded = st.max_group > pl;
+        let depth_exceeded = st.max_depth as f32 > df * st.bnodes as f32;
+        if group_exceeded {
+            ctx.class("ref:perm-limit-exceeded");
+        }
+        if depth_exceeded {
+            ctx.class("ref:depth-limit-exceeded");
+        }
+
+        match &got {
+            SRes::Unsupported(m) => {
+                ctx.fail("c14n/unsupported-on-supported-input", format!("Unsupported({m}) for a dataset without blank predicate / quoted triple / variable\n{}", show_quads(&qs)));
+            }
+            SRes::Other(m) => {
+                ctx.fail("c14n/unexpected-error", format!("{m}\n{}", show_quads(&qs)));
+            }
+            SRes::Toxic(m) => {
+                ctx.nontrivial();
+                if !(group_exceeded || depth_exceeded) {
+                    ctx.fail(
+                        format!("c14n/toxic-within-limits/{trig}"),
+                        format!(
+                            "ToxicGraph({m}) with depth_factor={df} permutation_limit={pl}, but the unpruned reference never met a group larger than {} nor a depth beyond {} ({} blank nodes)\n{}",
+                            st.max_group,
+                            st.max_depth,
+                            st.bnodes,
+                            show_quads(&qs)
+                        ),
+                    );
+                }
+            }
+            SRes::Ok { nq, quads, idmap } => {
+                if st.shared_fd >= 2 || esc {
+                    ctx.nontrivial();
+                }
+                let mut ambiguous = false;
+                if nq != &r.nquads && st.ties {
+                    // The Recommendation leaves the order of tied results / permutations open. Normally
+                    // every resolution gives the same document; on some inputs it does not (RDFC-1.0
+                    // itself is ambiguous there). Accept any document the reference can produce.
+                    let alts = rdfc_ref::alt_docs(&qs, alg, (st.calls * 2).max(2_000), 40);
+                    if alts.contains(nq) {
+                        ctx.class("rdfc10-ambiguous-input(other-admissible-document)");
+                        ambiguous = true;
+                    } else {
+                        // cannot be adjudicated soundly: ties exist, and the search over tie resolutions
+                        // is not exhaustive. Counted, not failed (label-dependence is C05's business).
+                        ctx.class(if alts.len() > 1 { "rdfc10-ambiguous-input(unresolved)" } else { "tie-mismatch(unresolved)" });
+                        return;
+                    }
+                }
+                if ambiguous {
+                    // sophia's own document must still be reproduced by its id map and relabelled quads
+                    let lines = {
+                        let mut l: Vec<String> = qs.iter().map(|q| rdfc_ref::quad_nq(q, &|b: &str| idmap.get(b).cloned().unwrap_or_else(|| format!("?{b}")))).collect();
+                        l.sort();
+                        l.concat()
+                    };
+                    let mut l2: Vec<String> = quads.iter().map(|q| rdfc_ref::quad_nq(q, &|b: &str| b.to_string())).collect();
+                    l2.sort();
+                    if &lines != nq || &l2.concat() != nq {
+                        ctx.fail(format!("c14n/idmap-inconsistent/{trig}"), format!("id map / relabelled quads do not reproduce sophia's own document\n input:\n{}\n document:\n{nq}\n id map: {idmap:?}", show_quads(&qs)));
+                    }
+                    return;
+                }
+                if nq != &r.nquads {
+                    // is the difference in the labelling, or already in the way terms/lines are written?
+                    let unl = |doc: &str| {
+                        let mut l: Vec<String> = doc
+                            .lines()
+                            .map(|line| {
+                                let mut out = String::new();
+                                let mut rest = line;
+                                while let Some(i) = rest.find("_:c14n") {
+                                    out.push_str(&rest[..i + 6]);
+                                    rest = rest[i + 6..].trim_start_matches(|c: char| c.is_ascii_digit());
+                                }
+                                out.push_str(rest);
+                                out
+                            })
+                            .collect();
+                        l.sort();
+                        l
+                    };
+                    let trig = if unl(nq) != unl(&r.nquads) {
+                        if esc { "literal-serialisation" } else { "serialisation" }
+                    } else if nq.lines().collect::<BTreeSet<_>>() == r.nquads.lines().collect::<BTreeSet<_>>() {
+                        "line-order"
+                    } else {
+                        trig
+                    };
+                    ctx.fail(
+                        format!("c14n/output-differs-from-rdfc10/{trig}"),
+                        format!("canonical N-Quads differ from RDFC-1.0 ({})\n input:\n{}\n sophia:\n{}\n reference:\n{}", if case.sha384 { "SHA-384" } else { "SHA-256" }, show_quads(&qs), nq, r.nquads),
+                    );
+                    return;
+                }
+                // issued identifiers
+                if !st.ties {
+                    if idmap != &r.idmap {
+                        ctx.fail(format!("c14n/idmap-differs-from-rdfc10/{trig}"), format!("issued identifiers differ\n input:\n{}\n sophia: {idmap:?}\n reference: {:?}", show_quads(&qs), r.idmap));
+                    }
+                } else {
+                    let keys: BTreeSet<&String> = idmap.keys().collect();
+                    let vals: BTreeSet<&String> = idmap.values().collect();
+                    let want: BTreeSet<String> = (0..st.bnodes).map(|i| format!("c14n{i}")).collect();
+                    let lines = {
+                        let mut l: Vec<String> = qs.iter().map(|q| rdfc_ref::quad_nq(q, &|b: &str| idmap.get(b).cloned().unwrap_or_else(|| format!("?{b}")))).collect();
+                        l.sort();
+                        l.concat()
+                    };
+                    if keys != r.idmap.keys().collect() || vals.len() != keys.len() || vals.iter().map(|s| s.to_string()).collect::<BTreeSet<_>>() != want || lines != r.nquads {
+                        ctx.fail(format!("c14n/idmap-inconsistent/{trig}"), format!("issued identifiers (tie case) do not reproduce the canonical document\n input:\n{}\n sophia: {idmap:?}", show_quads(&qs)));
+                    }
+                }
+                // the relabelled quads are the canonical document as well
+                let mut l: Vec<String> = quads.iter().map(|q| rdfc_ref::quad_nq(q, &|b: &str| b.to_string())).collect();
+                l.sort();
+                if l.concat() != r.nquads {
+                    ctx.fail(format!("c14n/relabel-quads-differ/{trig}"), format!("quads returned by relabel_with are not the canonical document\n input:\n{}\n got:\n{}\n reference:\n{}", show_quads(&qs), l.concat(), r.nquads));
+                }
+            }
+        }
+    }
+}
+
+pub fn case_quads(case: &Case) -> Vec<MQ> {
+    match &case.input {
+        Input::Spec(s) => s.build(),
+        Input::Quads(q) => normalise_dataset(q.clone()),
+        Input::Enumerated { n, scheme, mask, deco } => enumerated(*n as usize, *scheme, *mask, *deco),
+    }
+}
+
+pub fn main(opts: &Opts) -> i32 {
+    drive::<C06>(opts)
 }
 pub fn worker(_args: &[String]) -> i32 {
     2
